@@ -32,7 +32,7 @@ void harness(void) {
 #if T == 1	/* skip_spwsp */
 	const uint8_t *p = NULL;
 	size_t n = 777;
-#ifdef KF_HTTP_SKIP_SPWSP_END
+#ifdef KF_HTTP_SKIP_SPWSP_END	/* blocked: nothing but SP/WSP (or nothing at all) in the buffer */
 	{ int all = 1; for (size_t i = 0; i < LEN; i++) if (m[i] >= 33) all = 0; V_ASSUME(!all); }
 #endif
 	r = skip_spwsp(m, LEN, &p, &n);
@@ -44,7 +44,7 @@ void harness(void) {
 #elif T == 2	/* skip_spwsp2 */
 	const uint8_t *p = NULL;
 	size_t n = 777;
-#ifdef KF_HTTP_SKIP_SPWSP_END
+#ifdef KF_HTTP_SKIP_SPWSP_END	/* blocked: nothing but SP/WSP (or nothing at all) in the buffer */
 	{ int all = 1; for (size_t i = 0; i < LEN; i++) if (m[i] >= 33) all = 0; V_ASSUME(!all); }
 #endif
 	r = skip_spwsp2(m, LEN, &p, &n);
@@ -78,14 +78,13 @@ void harness(void) {
 	http_req_line_data_t rd;
 	memset(&rd, 0, sizeof(rd));
 #ifdef KF_HTTP_SKIP_SPWSP_END
-	/* skip_spwsp() is called on the rest of the line: blocked when the line is the whole buffer (no CRLF) and
-	 * everything after a SP up to the buffer end is SP/WSP */
+	/* skip_spwsp() runs from a SP to the end of the line; it reads the byte behind the line when everything up to
+	 * there is SP/WSP.  Behind the line is the CR of CRLF unless the line is the whole buffer: blocked = no CRLF in
+	 * the buffer and the last byte is SP/WSP (slightly wider than the defect, see findings/http_skip_spwsp.md) */
 	{
-		int crlf = 0; for (size_t i = 0; i + 1 < LEN; i++) if (m[i] == '\r' && m[i + 1] == '\n') crlf = 1;
-		if (!crlf) {
-			size_t i = LEN; while (i > 0 && m[i - 1] < 33) i--;
-			V_ASSUME(!(i < LEN && (i == 0 || 1)));
-		}
+		int crlf = 0;
+		for (size_t i = 0; i + 1 < LEN; i++) if (m[i] == '\r' && m[i + 1] == '\n') crlf = 1;
+		if (LEN != 0) V_ASSUME(crlf || m[LEN - 1] >= 33);
 	}
 #endif
 	r = http_parse_req_line(m, LEN, &rd);
@@ -126,6 +125,17 @@ void harness(void) {
 	uint8_t *name = v_buf(IN.name, NLEN);
 	const uint8_t *val = NULL;
 	size_t vs = 777, next = 777;
+#ifdef KF_HTTP_SKIP_SPWSP_END
+	/* skip_spwsp2(value) reads the byte behind the block when the value of the last field is empty / all SP/WSP up to
+	 * the end of the block and no field-terminating CRLF follows: blocked = the bytes behind the last ':' .. end are
+	 * all SP/WSP and the block does not end in CRLF (slightly wider than the defect) */
+	if (LEN != 0) {
+		size_t e = LEN;
+		while (e > 0 && m[e - 1] < 33) e--;
+		int ends_crlf = (LEN >= 2 && m[LEN - 2] == '\r' && m[LEN - 1] == '\n');
+		V_ASSUME(!(e > 0 && m[e - 1] == ':' && !ends_crlf));
+	}
+#endif
 	r = http_hdr_val_get_ex(m, LEN, name, NLEN, IN.off, &val, &vs, &next);
 	if (r == 0) {
 		V_ASSERT(INSIDE(val, vs), "value span inside the header block");
@@ -147,6 +157,10 @@ void harness(void) {
 	uint8_t *lc = (uint8_t *)v_alloc(LEN);
 	size_t ns = 777, c;
 	mem_to_lower(lc, m, LEN);
+#ifdef KF_HTTP_HDR_REMOVE_END
+	/* blocked: the searched name occurs at the very end of the block (the byte behind it is tested for ':') */
+	if (LEN >= NLEN && NLEN != 0) V_ASSUME(memcmp(lc + (LEN - NLEN), name, NLEN) != 0);
+#endif
 	c = http_hdr_val_remove(m, lc, LEN, &ns, name, NLEN);
 	if (LEN != 0) V_ASSERT(ns <= LEN, "new size not larger than the old one");
 	if (c > 0) V_ASSERT(ns < LEN, "removal shrinks the block");
@@ -197,7 +211,7 @@ void harness(void) {
 	{
 		size_t i = 0, o = 0;
 		while (i < LEN && o + 1 < NBUF) {
-			if (m[i] == '%') { V_ASSUME(i + 2 < LEN + 0 || i + 3 <= LEN); i += 3; } else { i++; }
+			if (m[i] == '%') { V_ASSUME(i + 3 <= LEN); i += 3; } else { i++; }
 			o++;
 		}
 	}
